@@ -308,6 +308,7 @@ Section U.
 Variable L : lattice.
 Variable to_ssl to_protocol ce re : list str.
 Variable rac : list Z.
+Variable rc : bool.
 
 Notation urlopen := (urlopen M B L to_ssl to_protocol ce re rac).
 
@@ -378,12 +379,15 @@ Proof.
 Qed.
 
 (* ---------- disposing of a held response ---------- *)
-Theorem dispose_inv st h d : Inv st -> In (h_conn h) (p_leases st) -> Inv (dispose M st h d).
+Theorem dispose_inv st h d : Inv st -> In (h_conn h) (p_leases st) -> Inv (dispose M rc st h d).
 Proof.
   intros H Hin. pose proof (start_unlease st (h_conn h) H Hin) as G. unfold dispose.
   destruct d.
   - pose proof (E_put _ _ (h_keepalive h) (h_body h) G) as X. destruct (after_body _ _ _ _); exact X.
-  - destruct (h_keepalive h).
+  - destruct (bool_dec rc true) as [Erc|Erc]; [rewrite Erc|apply not_true_is_false in Erc; rewrite Erc].
+    { pose proof (flight_close _ _ G) as Gc. destruct (close_conn (unlease st (h_conn h)) (h_conn h)) as [st1 c1].
+      apply end_put_some. exact Gc. }
+    destruct (h_keepalive h).
     + apply end_put_some. eapply flight_same; [exact G | reflexivity | reflexivity].
     + (* the response's socket is closed when the response is dropped *)
       pose proof (flight_close _ _ G) as Gc. unfold close_conn in Gc. unfold close_sock.
@@ -398,15 +402,15 @@ Qed.
 Variable mkdefault : retries_arg -> retry.
 
 Theorem run_history_inv reqs script st :
-  Inv st -> Inv (fst (run_history M B L to_ssl to_protocol ce re rac mkdefault reqs script st)).
+  Inv st -> Inv (fst (run_history M B L to_ssl to_protocol ce re rac mkdefault rc reqs script st)).
 Proof.
   revert script st. induction reqs as [|rq more IH]; intros script st H; cbn [run_history]; [exact H|].
   pose proof (urlopen_inv script st rq (mkdefault (rq_retries rq)) H) as P.
   destruct (urlopen script st rq (mkdefault (rq_retries rq))) as [[[st1 res] h] script1]. destruct P as [P1 P2].
-  assert (H2 : Inv (match h with Some hd => dispose M st1 hd (rq_disposal rq) | None => st1 end)).
+  assert (H2 : Inv (match h with Some hd => dispose M rc st1 hd (rq_disposal rq) | None => st1 end)).
   { destruct h as [hd|]; [apply dispose_inv; [exact P1 | apply P2; reflexivity] | exact P1]. }
   specialize (IH script1 _ H2).
-  destruct (run_history M B L to_ssl to_protocol ce re rac mkdefault more script1 _) as [st3 rs]. exact IH.
+  destruct (run_history M B L to_ssl to_protocol ce re rac mkdefault rc more script1 _) as [st3 rs]. exact IH.
 Qed.
 End U.
 
